@@ -271,6 +271,7 @@ class Run:
         self.out = []          # list of ((mid, pt), line)
         self.results = []
         self.crash = None
+        self.control_errors = []      # (order, message) of every refusal by a control
         self._last_error = None
         self.clock_ok = True
 
@@ -454,6 +455,7 @@ class Run:
         def on_error(control, order, error):
             # the reason of a refusal, as the control words it (an order at the exchange no longer carries it)
             run._last_error = "Order has violated: %s Error: %s" % (control.NAME, error)
+            run.control_errors.append((order, str(error)))
             return orig_on_error(control, order, error)
 
         BaseControl._on_error = on_error
@@ -707,9 +709,9 @@ def tie_explains(sc, a, b, run=None):
     if run is not None:
         # float noise: a market-on-close liability scaled by a non-dyadic non-runner multiplier (never rounded by the
         # code) that is a 2dp amount in exact arithmetic but not as a double; OrderValidation then refuses it
-        for o in run.orders:
+        for o, msg in [(o, o.violation_msg or "") for o in run.orders] + list(getattr(run, "control_errors", [])):
             liab = getattr(o.order_type, "liability", None)
-            if liab is not None and "liability has more than 2dp" in (o.violation_msg or "") and round(liab, 2) != liab \
+            if liab is not None and "liability has more than 2dp" in msg and round(liab, 2) != liab \
                     and abs(round(liab, 2) - liab) < 1e-9:
                 return True
     if run is not None:
@@ -720,6 +722,16 @@ def tie_explains(sc, a, b, run=None):
             if ot.ORDER_TYPE.name in ("MARKET_ON_CLOSE", "LIMIT_ON_CLOSE") and o.side == "LAY" and o.simulated.matched:
                 sp = frac(o.simulated.matched[0][1])
                 if sp != 1 and common.is_tie2(frac(ot.liability) / (sp - 1)):
+                    return True
+            # ... and so is the rest of a LIMIT LAY with MARKET_ON_CLOSE persistence: (price - 1) x remaining / (sp - 1)
+            if ot.ORDER_TYPE.name == "LIMIT" and o.side == "LAY" and getattr(ot, "persistence_type", None) == "MARKET_ON_CLOSE" \
+                    and o.simulated.matched and o.simulated._bsp_reconciled:
+                last = o.simulated.matched[-1]
+                spx = frac(last[1])
+                before = sum((frac(f[2]) for f in o.simulated.matched[:-1]), Fraction(0))
+                cands = {frac(ot.size) - before, frac(last[2]) + frac(o.simulated.size_cancelled)}
+                cands |= {c + Fraction(k, 100) for c in list(cands) for k in (-1, 1)}
+                if spx != 1 and any(common.is_tie2((frac(ot.price) - 1) * c / (spx - 1)) for c in cands if c > 0):
                     return True
     xs, ys = re.split(r"([ ,])", a), re.split(r"([ ,])", b)
     if len(xs) != len(ys):
